@@ -5,6 +5,9 @@ from ..core import Result, HarnessBug
 from . import gcx
 
 ID = "C17"
+# what the collector does depends on heap addresses (registry slots are address residues): a failing case is re-run 8
+# times in fresh executors and reported when it fails again at least twice
+CONFIRM = (2, 8)
 LEVEL = "exploration"
 BUDGET = {"quick": 1200, "thorough": 300000}
 RULE = ("case = history in a fresh Cello Thread (own collector): managed / root / raw allocations (new, alloc without a "
